@@ -77,6 +77,23 @@ func (pv PathView) NilKnown(v ssa.Value) (isNil, known bool) {
 	if IsNilConst(rv) {
 		return true, true
 	}
+	// the branch that led from the operand's position into the merging block
+	// may be the test of the operand (`if err != nil { goto join }`)
+	if pos != nil {
+		for m := pv.n; m != nil && m.prev != nil; m = m.prev {
+			if m.prev == pos {
+				if f, ok := EdgeFact(m.prev.b, m.b); ok {
+					if f.SaysNil(rv) {
+						return true, true
+					}
+					if f.SaysNotNil(rv) {
+						return false, true
+					}
+				}
+				break
+			}
+		}
+	}
 	if pv.q.nonNilValue(rv, 0) {
 		return false, true
 	}
@@ -217,6 +234,16 @@ func (q PathQuery) evalBool(v ssa.Value, n *pnode, depth int) (val, known bool) 
 			}
 			for i, p := range x.Block().Preds {
 				if p == m.prev.b && i < len(x.Edges) {
+					// the branch that led into the phi's block may itself decide the
+					// operand (`if handled { goto join }` with the join merging handled)
+					if f, ok := EdgeFact(m.prev.b, m.b); ok {
+						if f.SaysBool(x.Edges[i], true) {
+							return true, true
+						}
+						if f.SaysBool(x.Edges[i], false) {
+							return false, true
+						}
+					}
 					return q.evalBool(x.Edges[i], m.prev, depth+1)
 				}
 			}
